@@ -5,7 +5,8 @@ what is buffered) and the `run` loop without the timer (C08 adds timer/close in 
 
 uniseg is a parameter: `clusterAt pos` = number of runes of the first grapheme cluster of the rune
 sequence that starts at byte offset `pos` of the stream (first rune read with the raw-byte
-fallback, the following ones as `ReadRune` returns them, U+FFFD for an invalid byte).  The harness
+fallback, the following ones as `ReadRune` returns them; the look-ahead stops in front of an
+invalid byte, so only well-formed scalars follow).  The harness
 computes it with the real library; theorems quantify over it.  Core Lean only.
 -/
 import VaxisModel.Model.Parser
@@ -115,7 +116,9 @@ def printLoop (cl : Nat) : Nat → Rd → List Rune → List Rune × Rd
     else
       let rd := rd.fill                               -- ReadRune may fill on a partial rune
       let (r, sz) := decodeRune rd.buf
-      if acc.length + 1 > cl then (acc, rd)           -- rest != "": UnreadRune; break
+      if Gen.ParserTable.lookaheadStopsAtInvalid && r = runeError && sz = 1 then
+        (acc, rd)                                     -- invalid byte: UnreadRune; break (left to readRune)
+      else if acc.length + 1 > cl then (acc, rd)      -- rest != "": UnreadRune; break
       else printLoop cl fuel (rd.consume sz) (acc ++ [r])
 
 /-- What is observed on the channel: `Print` with its whole grapheme, or any other sequence. -/
